@@ -64,6 +64,45 @@ pub fn good_frame() -> Vec<u8> {
     f
 }
 
+/// A valid frame that leaves every kind of per-frame state behind: Huffman literals with a new
+/// table, all three sequence tables FSE-described (non-zero accuracy logs), repeat offsets moved,
+/// a checksum. (frame bytes, content)
+pub fn warm_frame() -> &'static (Vec<u8>, Vec<u8>) {
+    use crate::model::synth::*;
+    static W: std::sync::OnceLock<(Vec<u8>, Vec<u8>)> = std::sync::OnceLock::new();
+    W.get_or_init(|| {
+        let text: Vec<u8> = (0..400u32).map(|i| b"the quick brown fox jumps over the lazy dog, "[((i * 7 + i / 11) % 45) as usize]).collect();
+        let seqs = (0..14u32)
+            .map(|i| SeqSpec { ll: 3 + (i * 5) % 23, ml: 3 + (i * 11) % 40, off: if i % 4 == 0 { OffSpec::Rep(1 + (i / 4 % 3) as u8) } else { OffSpec::Frac((i * 4099) as u16) } })
+            .collect();
+        let spec = FrameSpec {
+            single_segment: false,
+            window_desc: 0x08,
+            fcs_bytes: 0,
+            checksum: true,
+            dict_id_bytes: 0,
+            zero_dict_id: false,
+            blocks: vec![BlockSpec::Comp(CompSpec { literals: text, lit_mode: 2, lit_fmt: 0, huf_shape: 0, huf_fse: false, seqs, count_fmt: 0, modes: [2, 2, 2], tables: [(6, 11), (5, 12), (6, 13)] })],
+        };
+        let out = synth(&spec, None, false);
+        (out.bytes, out.content)
+    })
+}
+
+/// Decodes `warm_frame` completely on `dec` (what a long-lived decoder has behind it when the
+/// hostile input arrives). Err = the valid warm-up frame itself was not decoded correctly.
+pub fn warm_up(dec: &mut FrameDecoder) -> Result<(), String> {
+    let (f, content) = warm_frame();
+    let mut src = &f[..];
+    dec.reset(&mut src).map_err(|e| format!("warm-up frame: reset: {e}"))?;
+    dec.decode_blocks(&mut src, BlockDecodingStrategy::All).map_err(|e| format!("warm-up frame: {e}"))?;
+    let out = dec.collect().unwrap_or_default();
+    if &out != content {
+        return Err(format!("warm-up frame decodes to {} bytes, expected {}", out.len(), content.len()));
+    }
+    Ok(())
+}
+
 /// drives one entry point; returns (reached block layer?, ended in error?)
 pub fn drive(dec: &mut FrameDecoder, input: &[u8], entry: &Entry, bound: usize) -> (bool, bool) {
     let mut reached = false;
@@ -211,10 +250,12 @@ pub fn drive(dec: &mut FrameDecoder, input: &[u8], entry: &Entry, bound: usize) 
 /// Entry for the coverage-guided targets: decode `input` through `entry` (optionally with a
 /// hostile dictionary that is registered if it parses), then require that the same decoder still
 /// decodes a known-good frame. Panics of the crate under test propagate (libFuzzer sees them).
-pub fn drive_and_reuse(input: &[u8], entry: &Entry, limit: Option<u64>, dict: Option<&[u8]>) -> Result<(), String> {
+pub fn drive_and_reuse(input: &[u8], entry: &Entry, limit: Option<u64>, dict: Option<&[u8]>, warm: bool) -> Result<(), String> {
     let mut dec = FrameDecoder::new();
     if let Some(l) = limit {
         dec.set_max_window_size(l);
+    } else if warm {
+        warm_up(&mut dec)?;
     }
     let mut forced = None;
     if let Some(d) = dict {
